@@ -176,6 +176,12 @@ def run_inertia(ctx, p):
         ctx.judge('inertia', d <= TOL and A.shape == (6, 6), dict(sig, kind='not_parallel_axis_matrix'),
                   lambda: 'SpatialInertia(m=%r, c=%s, I=%s) = %s, parallel-axis matrix is %s' % (m, c, core.short(I, 100), core.short(A, 300), core.short(want, 300)))
         ctx.judge('inertia', rel(A, A.T, sc) <= TOL, dict(sig, kind='not_symmetric'), 'spatial inertia matrix is not symmetric')
+        # the moments of inertia one by one: I_kk + m (the two other coordinates squared) is a sum of non-negative terms, so each
+        # diagonal entry of the rotational block is determined to rounding even when it is tiny next to the other two (a slender
+        # link along one axis); judged to 1e-6 of the entry itself
+        dg = max(abs(A[k_, k_] - want[k_, k_]) / want[k_, k_] for k_ in range(6)) if A.shape == (6, 6) and all(want[k_, k_] > 0 for k_ in range(6)) else 0.0
+        ctx.judge('inertia', dg <= 1e-6, dict(sig, kind='moment_of_inertia_wrong'),
+                  lambda: 'SpatialInertia(m=%r, c=%s): moments of inertia %s, parallel-axis theorem gives %s (relative %.3g)' % (m, c, np.diag(A), np.diag(want), dg))
         # joined bodies add
         m2, c2, I2 = float(p['m2']), np.asarray(p['c2'], float), np.asarray(p['I2'], float)
         J2 = sm.SpatialInertia(m=m2, r=c2, I=I2)
@@ -379,6 +385,11 @@ def run(ctx):
             return gen.logu(rng, 1e-3, 1e3), (gen.vec(rng, 3, 1e-3, 1e2) if rng.random() < 0.9 else np.zeros(3)), A @ A.T + 1e-6 * np.eye(3)
         m, c, I = body()
         m2, c2, I2 = body()
+        if rng.random() < 0.25:      # a slender link: centre of mass far along one frame axis, barely off it, small own inertia
+            k_ = int(rng.integers(3))
+            c = gen.vec(rng, 3, 1e-4, 1e-2)
+            c[k_] = gen.sign(rng) * gen.logu(rng, 1e1, 1e4)
+            I = I * 1e-14 + 1e-12 * np.eye(3)
         drive(RUNNERS, ctx, 'inertia', dict(m=m, c=c, I=I, m2=m2, c2=c2, I2=I2, x=vec6(rng), multi=[[2, 6], [3, 6], [6], []][rng.integers(4)]))
     for _ in range(ctx.scale(1500, 25000)):
         c = SV[rng.integers(4)]
